@@ -369,6 +369,16 @@ class SetterScenario(BaseScenario):
         if raw is None:
             return ["the entity is not in the file"]
         if "kind" in live:
+            if live.get("kind") == "data" and isinstance(live.get("values"), list) and isinstance(raw.get("values"), list):
+                # the format allows arrays shorter than the element count (the missing tail is no-data); whether arrays are padded
+                # is C07's question -- here trailing no-data entries are not a difference
+                def strip(vals):
+                    vals = list(vals)
+                    while vals and (vals[-1] in ("nan", "", -2147483648, 0, None) or vals[-1] != vals[-1]):
+                        vals.pop()
+                    return vals
+                if strip(live["values"]) == strip(raw["values"]):
+                    raw = {**raw, "values": live["values"]}
             return compare.diff_record(live, raw, la, lb, fields=("name", "flags", "values", "metadata", "attrs", "arrays", "pgs"))
         diffs = []
         for key in sorted(set(live["attrs"]) | set(raw["attrs"])):
